@@ -18,8 +18,8 @@ type Loc struct {
 	I int
 }
 
-func locOf(in ssa.Instruction) Loc   { return Loc{in.Block(), instrIndex(in)} }
-func locAfter(in ssa.Instruction) Loc { return Loc{in.Block(), instrIndex(in) + 1} }
+func locOf(in ssa.Instruction) Loc     { return Loc{in.Block(), instrIndex(in)} }
+func locAfter(in ssa.Instruction) Loc  { return Loc{in.Block(), instrIndex(in) + 1} }
 func blockStart(b *ssa.BasicBlock) Loc { return Loc{b, 0} }
 
 // Reach explores forward from the given locations. stop(in) == true means the
